@@ -390,15 +390,19 @@ def gen_correspondence(rep: Report, rng, tier: str) -> Corr:
         keys = [a + b for a in eig for b in eig]
         mode = rng.choice(["ok"] * 7 + ["key", "index"])
         terms = []
+        pool = rng.sample(keys, rng.randint(2, 3))       # few basis strings: they recur across factors and terms
         for _ in range(rng.randint(1, 4)):
             ops = []
             for _ in range(rng.randint(0, 3)):
                 qd = {}
-                for _ in range(rng.randint(1, 3)):
-                    qd[rng.choice(keys)] = complex(rng.randint(-2, 2), rng.randint(-2, 2))
+                ks = rng.sample(pool, rng.randint(1, len(pool))) if i % 2 == 0 else [rng.choice(keys) for _ in range(rng.randint(1, 3))]
+                for j, key in enumerate(ks):
+                    qd[key] = complex(rng.randint(-2, 2), rng.randint(-2, 2))
+                    if i % 2 == 0 and j == 0:
+                        qd[key] = rng.choice([1, 1.0, 1 + 0j, -1, 0])    # σz-like: first coefficient exactly 1 / −1 / 0
                 targets = [rng.randrange(n) for _ in range(rng.randint(1, 3))]   # repeats allowed: last wins
                 ops.append((qd, targets))
-            terms.append((complex(rng.randint(-2, 2), rng.randint(-2, 2)), ops))
+            terms.append((rng.choice([1, -1, 0, complex(rng.randint(-2, 2), rng.randint(-2, 2))]), ops))
         if mode == "key":
             terms[-1][1].append(({"qq": 1.0}, [0]))
         if mode == "index":
@@ -637,6 +641,13 @@ def oracle_case(kind: str, cs: int) -> list[tuple[str, dict, str | None]]:
             ops, loc = [], [torch.eye(dd, dtype=tu.DT) for _ in range(nn)]
             for _ in range(rng.randint(0, 3)):
                 qd = {rng.choice(keys): complex(rng.uniform(-1, 1), rng.uniform(-1, 1)) for _ in range(rng.randint(1, 3))}
+                if cs % 2 == 0:
+                    # σz-like dictionaries over a small pool of basis strings: first coefficient exactly 1 / −1 / 0,
+                    # the same strings are used again by later factors and terms of this call
+                    pool = keys[: 3] if cs % 4 == 0 else [keys[0], keys[-1], keys[1]]
+                    ks = rng.sample(pool, rng.randint(2, 3))
+                    qd = {k: complex(rng.uniform(-1, 1), rng.uniform(-1, 1)) for k in ks}
+                    qd[ks[0]] = rng.choice([1, 1.0, 1 + 0j, -1, 0])
                 tg = [rng.randrange(nn) for _ in range(rng.randint(1, 3))]
                 m = torch.zeros(dd, dd, dtype=tu.DT)
                 for k, v in qd.items():
